@@ -1532,3 +1532,272 @@ func ruleGlobalObj(c *Ctx, r *Rep) {
 	}
 	r.OK("globalobj:census", token.NoPos, "%d package-level variables, %d stateful struct types (%v)", n, len(stateful), sortedKeys(stateful))
 }
+
+// ---------------------------------------------------------------------------------------------------------------------
+// R-C02-noidentity: what an update writes is decided from values and ownership, never from addresses.
+
+func init() {
+	reg(&Rule{ID: "R-C02-noidentity", Props: []string{"C02", "C05"}, Floor: 3,
+		Doc: "addresses of containers are looked at only by the allocator (ownership), its containsSliceOf test and pathIntact: no other function of the library takes reflect's Pointer of a value or compares addresses of elements — an \"unchanged, keep the container\" shortcut in the update functions that compares addresses makes writing null beyond the end of an array a no-op (`[1] | .[3] = null` yields [1])",
+		Run: ruleNoIdentity})
+	addDecided("C02", " No function outside the allocator, containsSliceOf and pathIntact decides anything from the address of a container (R-C02-noidentity).")
+}
+
+func ruleNoIdentity(c *Ctx, r *Rep) {
+	info := c.Gojq.TypesInfo
+	n := 0
+	for _, fd := range c.Decls(c.Gojq) {
+		if c.PhysFile(fd.Pos()) == "parser.go" {
+			continue
+		}
+		fn := declKey(fd)
+		allowed := strings.HasPrefix(fn, "allocator.") || fn == "env.pathIntact" || fn == "containsSliceOf"
+		k := 0
+		ast.Inspect(fd.Body, func(m ast.Node) bool {
+			switch x := m.(type) {
+			case *ast.CallExpr:
+				nm := calleeName(info, x)
+				if nm == "reflect.Value.Pointer" || nm == "reflect.Value.UnsafePointer" || nm == "reflect.Value.UnsafeAddr" || strings.HasPrefix(nm, "unsafe.") {
+					n++
+					k++
+					r.Check(allowed, fmt.Sprintf("noidentity:%s:%s#%d", fn, nm, k), x.Pos(), "%s takes the address of a container (%s); enumerated users of addresses: the allocator's methods, containsSliceOf, env.pathIntact: %v", fn, nm, allowed)
+				}
+			case *ast.BinaryExpr:
+				if x.Op == token.EQL || x.Op == token.NEQ {
+					isAddrOfElem := func(e ast.Expr) bool {
+						u, ok := unparen(e).(*ast.UnaryExpr)
+						if !ok || u.Op != token.AND {
+							return false
+						}
+						_, ok = unparen(u.X).(*ast.IndexExpr)
+						return ok
+					}
+					if isAddrOfElem(x.X) || isAddrOfElem(x.Y) {
+						n++
+						k++
+						r.Check(allowed, fmt.Sprintf("noidentity:%s:&elem#%d", fn, k), x.Pos(), "%s compares the addresses of elements (`%s`): %v", fn, c.Src(x), allowed)
+					}
+				}
+			}
+			return true
+		})
+	}
+	if n == 0 {
+		r.Undecided("noidentity:census", token.NoPos, "no use of a container's address found (the allocator was expected)")
+	}
+}
+
+// ---------------------------------------------------------------------------------------------------------------------
+// R-C08-foreignindex: the index variable of a range over one sequence indexes another only when their lengths are tied.
+
+func init() {
+	reg(&Rule{ID: "R-C08-foreignindex", Props: []string{"C08"}, Floor: 15,
+		Doc: "inside `for i := range X`, an index expression Y[i] on another slice, array or string Y is in range only if the two lengths are tied: Y was made with len(X) (make, or a conversion of X), the range bound itself is built from len(Y), Y is X resliced to the bound, or the pair is enumerated with its reason — `for i, color := range strings.Split(env, \":\") { *targets[i] = … }` with eight targets panics on the ninth field",
+		Run: ruleForeignIndex})
+	addDecided("C08", " The index of a range over one sequence is used on another only where their lengths are tied (R-C08-foreignindex).")
+}
+
+var foreignIndexReviewed = map[string]string{
+	"funcKeys:range keys(v):w":                 "w is made with len(v) and keys(v) returns one entry per key of the map v",
+	"values:range keys(v):vs":                  "vs is made with len(v) and keys(v) returns one entry per key of the map v",
+	"funcTranspose:range vs.([]any):wss":       "wss has l rows, l being the maximum of the inner lengths computed by the loop above",
+	"funcTranspose:range vss:wss[j]":           "every row of wss is made with k = len(vss) columns",
+	"cli.runInternal:range cli.argnames:cli.argvalues": "argnames and argvalues are appended to in lockstep, one pair per --arg/--argjson/--slurpfile/--rawfile (R-C14-argpairs reads the same pairs)",
+}
+
+func ruleForeignIndex(c *Ctx, r *Rep) {
+	n := 0
+	for _, p := range []*packages.Package{c.Gojq, c.Cli} {
+		if p == nil {
+			continue
+		}
+		info := p.TypesInfo
+		for _, fd := range c.Decls(p) {
+			if c.PhysFile(fd.Pos()) == "parser.go" {
+				continue
+			}
+			seen := map[string]int{}
+			ast.Inspect(fd.Body, func(m ast.Node) bool {
+				rs, ok := m.(*ast.RangeStmt)
+				if !ok || rs.Key == nil {
+					return true
+				}
+				kid, ok := rs.Key.(*ast.Ident)
+				if !ok || kid.Name == "_" {
+					return true
+				}
+				kobj := info.ObjectOf(kid)
+				xt := info.TypeOf(rs.X)
+				if xt == nil {
+					return true
+				}
+				switch xt.Underlying().(type) {
+				case *types.Map, *types.Chan, *types.Signature:
+					return true
+				}
+				xs := types.ExprString(unparen(rs.X))
+				ast.Inspect(rs.Body, func(q ast.Node) bool {
+					ix, ok := q.(*ast.IndexExpr)
+					if !ok {
+						return true
+					}
+					id, ok := unparen(ix.Index).(*ast.Ident)
+					if !ok || info.ObjectOf(id) != kobj {
+						return true
+					}
+					yt := info.TypeOf(ix.X)
+					if yt == nil {
+						return true
+					}
+					if _, isMap := yt.Underlying().(*types.Map); isMap {
+						return true
+					}
+					ys := types.ExprString(unparen(ix.X))
+					if ys == xs {
+						return true
+					}
+					n++
+					base := fmt.Sprintf("foreignindex:%s:range %s:%s", declKey(fd), xs, c.Src(ix))
+					seen[base]++
+					key := base
+					if seen[base] > 1 {
+						key = fmt.Sprintf("%s#%d", base, seen[base])
+					}
+					// (1) the range bound mentions len(Y)
+					if mentions(rs.X, func(e ast.Expr) bool {
+						call, ok := e.(*ast.CallExpr)
+						return ok && len(call.Args) == 1 && types.ExprString(call.Fun) == "len" && types.ExprString(unparen(call.Args[0])) == ys
+					}) {
+						r.OK(key, ix.Pos(), "the range bound %s is built from len(%s)", xs, ys)
+						return true
+					}
+					// (2) Y is defined in this function from the length of X: make(T, len(X)…), Y := X[:…]/conversion of X, or
+					//     Y := f(X) for the range over f's argument, or Y is resliced to the integer bound (Y := Z[:N], range N)
+					tied := ""
+					yid, _ := unparen(ix.X).(*ast.Ident)
+					if yid != nil {
+						yobj := info.ObjectOf(yid)
+						ast.Inspect(fd.Body, func(d ast.Node) bool {
+							as, ok := d.(*ast.AssignStmt)
+							if !ok {
+								return true
+							}
+							for i, l := range as.Lhs {
+								lid, ok := l.(*ast.Ident)
+								if !ok || info.ObjectOf(lid) != yobj {
+									continue
+								}
+								var rhs ast.Expr
+								if len(as.Rhs) == len(as.Lhs) {
+									rhs = as.Rhs[i]
+								} else if len(as.Rhs) == 1 {
+									rhs = as.Rhs[0]
+								}
+								if rhs == nil {
+									continue
+								}
+								rhs = unparen(rhs)
+								if call, ok := rhs.(*ast.CallExpr); ok && types.ExprString(call.Fun) == "make" && len(call.Args) >= 2 {
+									if mentions(call.Args[1], func(e ast.Expr) bool {
+										lc, ok := e.(*ast.CallExpr)
+										if ok && len(lc.Args) == 1 && types.ExprString(lc.Fun) == "len" && types.ExprString(unparen(lc.Args[0])) == xs {
+											return true
+										}
+										return types.ExprString(e) == xs // range N { … } with make(T, N)
+									}) && len(call.Args) == 2 {
+										tied = "made with the length " + c.Src(call.Args[1])
+									}
+								}
+								if se, ok := rhs.(*ast.SliceExpr); ok && se.High != nil && types.ExprString(se.High) == xs {
+									tied = "resliced to the bound: " + c.Src(rhs)
+								}
+							}
+							return true
+						})
+					}
+					// (3) a guard on the index against len(Y): an earlier `if i >= len(Y) { break/return/continue }` in the loop body,
+					//     or the use lies under `if i < len(Y)`
+					lenY := func(e ast.Expr) bool {
+						call, ok := unparen(e).(*ast.CallExpr)
+						return ok && len(call.Args) == 1 && types.ExprString(call.Fun) == "len" && types.ExprString(unparen(call.Args[0])) == ys
+					}
+					isI := func(e ast.Expr) bool {
+						id, ok := unparen(e).(*ast.Ident)
+						return ok && info.ObjectOf(id) == kobj
+					}
+					for _, st := range rs.Body.List {
+						if st.Pos() > ix.Pos() {
+							break
+						}
+						ifs, ok := st.(*ast.IfStmt)
+						if !ok {
+							continue
+						}
+						if be, ok := unparen(ifs.Cond).(*ast.BinaryExpr); ok {
+							leaves := false
+							if len(ifs.Body.List) > 0 {
+								switch ifs.Body.List[len(ifs.Body.List)-1].(type) {
+								case *ast.BranchStmt, *ast.ReturnStmt:
+									leaves = true
+								}
+							}
+							if leaves && be.Op == token.GEQ && isI(be.X) && lenY(be.Y) && ifs.End() < ix.Pos() {
+								tied = "guarded: " + c.Src(ifs.Cond) + " leaves the loop body first"
+							}
+							if be.Op == token.LSS && isI(be.X) && lenY(be.Y) && ifs.Body.Pos() <= ix.Pos() && ix.End() <= ifs.Body.End() {
+								tied = "guarded: under " + c.Src(ifs.Cond)
+							}
+						}
+					}
+					if tied == "" {
+						ast.Inspect(rs.Body, func(d ast.Node) bool {
+							ifs, ok := d.(*ast.IfStmt)
+							if !ok || !(ifs.Body.Pos() <= ix.Pos() && ix.End() <= ifs.Body.End()) {
+								return true
+							}
+							for _, cj := range splitAnd(ifs.Cond) {
+								if be, ok := unparen(cj).(*ast.BinaryExpr); ok && be.Op == token.LSS && isI(be.X) && lenY(be.Y) {
+									tied = "guarded: under " + c.Src(ifs.Cond)
+								}
+							}
+							return true
+						})
+					}
+					// (4) an earlier `if len(X) != len(Y) { return … }` in the function
+					if tied == "" {
+						ast.Inspect(fd.Body, func(d ast.Node) bool {
+							ifs, ok := d.(*ast.IfStmt)
+							if !ok || ifs.End() > rs.Pos() || len(ifs.Body.List) == 0 {
+								return true
+							}
+							if _, ret := ifs.Body.List[len(ifs.Body.List)-1].(*ast.ReturnStmt); !ret {
+								return true
+							}
+							if be, ok := unparen(ifs.Cond).(*ast.BinaryExpr); ok && be.Op == token.NEQ {
+								a, b := types.ExprString(unparen(be.X)), types.ExprString(unparen(be.Y))
+								if (a == "len("+xs+")" && b == "len("+ys+")") || (b == "len("+xs+")" && a == "len("+ys+")") {
+									tied = "the function has returned unless " + a + " == " + b
+								}
+							}
+							return true
+						})
+					}
+					if tied != "" {
+						r.OK(key, ix.Pos(), "%s is %s", ys, tied)
+						return true
+					}
+					if why, ok := foreignIndexReviewed[fmt.Sprintf("%s:range %s:%s", declKey(fd), xs, ys)]; ok {
+						r.OK(key, ix.Pos(), "enumerated — %s", why)
+						return true
+					}
+					r.Bad(key, ix.Pos(), "in %s, %s uses the index of `range %s` on %s, and nothing ties the two lengths (no make with len, the bound is not built from len(%s), not enumerated): an index-out-of-range panic for a longer %s — no try can catch it", declKey(fd), c.Src(ix), xs, ys, ys, xs)
+					return true
+				})
+				return true
+			})
+		}
+	}
+	if n == 0 {
+		r.Undecided("foreignindex:census", token.NoPos, "no foreign index found")
+	}
+}
